@@ -90,23 +90,31 @@ def _init_worker():
     sys.setrecursionlimit(20000)
 
 # ------------------------------------------------------------------ driver
-def explore(hname, cases, opts, max_paths=200000, deadline=None):
+def explore(hname, cases, opts, max_paths=200000, deadline=None, stop_on=None):
     """work queue over (case, decision prefix)"""
     results = []
     ctx = mp.get_context('fork')
     with ProcessPoolExecutor(NPROC, mp_context=ctx, initializer=_init_worker) as pool:
         futs = set()
         for ci, c in enumerate(cases): futs.add(pool.submit(run_task, (hname, ci, c, [], opts)))
-        n = 0
+        n = 0; nviol = 0; stopping = False
         while futs:
             done, futs = wait(futs, return_when=FIRST_COMPLETED)
             for f in done:
                 r = f.result()
-                for p in r['pending']:
+                for p in ([] if stopping else r['pending']):
                     futs.add(pool.submit(run_task, (hname, r['case'], cases[r['case']], p, opts)))
                 r['pending'] = len(r['pending'])
                 if r['outcome'] is not None: results.append(r)
                 n += 1
+                if stop_on and any(o['status'] == 'refuted' and not o.get('canary') and stop_on(o) for o in r['obligations']):
+                    nviol += 1
+            if nviol >= 3 and not stopping:
+                # quick tier: a violation outside every recorded class was found on several paths -- no need to finish the exploration
+                stopping = True
+                for f in futs: f.cancel()
+                futs = {f for f in futs if not f.cancelled()}
+                results.append({'case': -1, 'outcome': 'stopped', 'note': 'exploration stopped after the first violations', 'obligations': [], 'xcheck': None, 'stats': {}, 't': 0})
             if n > max_paths or (deadline and time.time() > deadline):
                 for f in futs: f.cancel()
                 results.append({'case': -1, 'outcome': 'undecided', 'note': 'path/time budget exhausted', 'obligations': [], 'xcheck': None, 'stats': {}, 't': 0})
@@ -127,10 +135,15 @@ def check(prop, tier='quick', seed=0, only=None):
     h = _harness(hname)
     snap = W.take_snapshot()
     opts = {'xcheck': True, 'tier': tier, 'seed': seed}
+    os.environ['PYVC_TIER'] = tier
     cases = h.cases(tier)
     if only: cases = [c for c in cases if only in repr(c)]
     budget = getattr(h, 'BUDGET_S', {}).get(tier, 1500)
-    results = explore(hname, cases, opts, deadline=time.time() + budget)
+    known = [k for k in load_known() if k.get('property') == prop and k.get('kind') == 'known']
+    def outside_known(o):
+        if o.get('inputs') is None or not hasattr(h, 'in_known_class'): return True
+        return not any(k.get('obligation') == o['name'] and h.in_known_class(k, o['inputs']) for k in known)
+    results = explore(hname, cases, opts, deadline=time.time() + budget, stop_on=outside_known if tier == 'quick' else None)
     # extra (non path-based) obligations: lemmas discharged once
     lemma_obs = []
     if hasattr(h, 'lemmas'):
@@ -169,6 +182,15 @@ def summarize(prop, h, tier, seed, cases, results, lemma_obs, wall):
     os.makedirs(os.path.join(VERIF, 'replays'), exist_ok=True)
     for name, os_ in sorted(groups.items()):
         witnesses = []
+        # a recorded finding covers this obligation only if EVERY refuted instance falls into its witness class
+        kf = None
+        for k in known:
+            if k.get('kind') == 'known' and k.get('obligation') == name and hasattr(h, 'in_known_class') and all(o.get('inputs') is not None and h.in_known_class(k, o['inputs']) for o in os_):
+                kf = k; break
+        if kf is None and hasattr(h, 'in_known_class'):
+            # put instances outside every recorded class first, so that the replay file shows the new violation
+            ks = [k for k in known if k.get('kind') == 'known' and k.get('obligation') == name]
+            os_ = sorted(os_, key=lambda o: 1 if (o.get('inputs') is not None and any(h.in_known_class(k, o['inputs']) for k in ks)) else 0)
         for o in os_[:6]:
             rep = None
             if o.get('inputs') is not None and hasattr(h, 'replay'):
@@ -176,11 +198,6 @@ def summarize(prop, h, tier, seed, cases, results, lemma_obs, wall):
                 except Exception as e: rep = {'confirmed': False, 'error': traceback.format_exc()[-600:]}
             witnesses.append({'inputs': o.get('inputs'), 'info': o.get('info'), 'case': _case_repr(cases, o['case']), 'case_obj': cases[o['case']] if o['case'] >= 0 else None, 'replay': rep})
         confirmed = [w for w in witnesses if w['replay'] and w['replay'].get('confirmed')]
-        # known finding? (only if every witness falls into a listed class)
-        kf = None
-        for k in known:
-            if k.get('kind') == 'known' and k.get('obligation') == name and hasattr(h, 'in_known_class') and all(h.in_known_class(k, w['inputs']) for w in witnesses if w['inputs'] is not None):
-                kf = k; break
         fn = os.path.join(VERIF, 'replays', f'{prop}-{_safe(name)}.json')
         doc = {'property': prop, 'obligation': name, 'tier': tier, 'n_refuted_paths': len(os_), 'witnesses': witnesses,
                'confirmed_natively': bool(confirmed), 'files': h_files(h),
